@@ -49,6 +49,9 @@ var ctors = map[string]interface{}{
 	"NewArpThaField": of.NewArpThaField, "NewArpShaField": of.NewArpShaField, "NewArpTpaField": of.NewArpTpaField,
 	"NewArpSpaField": of.NewArpSpaField, "NewActsetOutputField": of.NewActsetOutputField, "NewIcmpCodeField": of.NewIcmpCodeField,
 	"NewIcmpTypeField": of.NewIcmpTypeField,
+	"NewMatchFieldU64": func(name string, v uint64, win ...int) (*of.MatchField, error) {
+		return of.NewMatchField[uint64, int](name, v, win...)
+	},
 	"NewRegMatchField": of.NewRegMatchField, "NewTunMetadataField": of.NewTunMetadataField, "NewCTStates": of.NewCTStates,
 	"NewCTStateMatchField": of.NewCTStateMatchField, "NewCTZoneMatchField": of.NewCTZoneMatchField,
 	"NewCTMarkMatchField": of.NewCTMarkMatchField, "NewCTLabelMatchField": of.NewCTLabelMatchField,
